@@ -182,6 +182,22 @@ def run(rep, tier, seed):
         rep.count('family_diverging_continuations')
         reqs.append((4, [enc_table(T), 0, 0, 0, enc_str(text)]))
         metas.append((T, Lt, text, tree))
+    # the same unknown license several times in one expression, each time in another letter case (own random stream):
+    # every occurrence is an operand of its own with the spelling it has in the text
+    rng2 = random.Random(seed * 7919 + 2)
+    for _ in range(300 if tier == 'thorough' else 80):
+        T = gen.gen_table(rng2, maxn=3)
+        try:
+            Lt = make_licensing(T)
+        except ValueError:
+            continue
+        pool = rng2.sample(['foo', 'licenseref-bar', 'gp', 'q.r', 'exc', 'zz', 'later'], rng2.choice([1, 2, 2, 3]))
+        text, tree, ok = parsing.gen_expression(rng2, T, depth=rng2.randint(1, 3), unknown_ratio=0.75, unknown_words=pool, case_unknown=True)
+        if not ok or ''.join(ch.lower() for ch in text) != text.lower():
+            continue
+        rep.count('family_repeated_unknown_other_case')
+        reqs.append((4, [enc_table(T), 0, 0, 0, enc_str(text)]))
+        metas.append((T, Lt, text, tree))
     res = run_model(reqs)
     rep.trail = []
     for (T, Lt, text, tree), r in zip(metas, res):
